@@ -3,8 +3,7 @@ CONSTANTS
  Reqs = {"r1","r2","r3","r4"}
  Procs <- P4
  Prio <- Pr4
- MachProcs = 2
- MaxP = 4
+ Configs <- C24
  MaxMach = 3
  MaxStops = 1
 INVARIANTS Capacity Conservation NeedAccounting ExclusiveAlone PendingOK PendingIsOutstanding NoOverstart
